@@ -234,8 +234,9 @@ CHECKS = {
         "with substitute classes: real_cls = a Decimal-like class recording the exact text it receives, quantity_cls, "
         "module/group/object subclasses. One real number of 4 (quick) / 7 shapes with SYMBOLIC digits (trailing zeros, "
         "exponent forms, '.dd', 'd.') at 7 kinds of position: top level, sequence element, set element, nested "
-        "sequence, quantity magnitude, quantity inside a sequence, inside a group inside an object, with integers "
-        "beside it. Assertions: every real is the substitute with recorded text == the lexeme; every value-with-"
+        "sequence, quantity magnitude, quantity inside a sequence, inside a group inside an object, units on a whole sequence / set, with integers "
+        "beside it; the grammar and decoder wired as one shared object, two separate ones, decoder only, or through "
+        "pvl.loads keywords; reals beyond the range of a double. Assertions: every real is the substitute with recorded text == the lexeme; every value-with-"
         "units is the substitute quantity; every container is the substitute class; integers are int; erasing the "
         "substitutes gives exactly the default result; supplying the substitutes does not change acceptance. "
         "Outside: several reals per label, other quantity libraries.",
@@ -247,7 +248,8 @@ CHECKS = {
         "and the block templates with every keyword letter case: both succeed, the (name, value) item sequences are "
         "equal at every level, the classes are PVLModuleNew/PVLGroupNew/PVLObjectNew, and pvl.new.dumps(new) equals "
         "pvl.dumps(old) as strings for the default encoder and the PVL and PDS3 encoders (quick; all four thorough). "
-        "Parity harnesses: the 16 C08 templates (every pattern of missing values, symbolic layout) through both loaders - "
+        "Parity harnesses: a label with names of 1-4 characters and NULL/TRUE/FALSE in every letter case, sets, quantities "
+        "and a date; the C08 templates (every pattern of missing values, symbolic layout) through both loaders - "
         "same outcome, items, placeholders and errors list; text 'a = x<c> <sep>b = 2<sep>END' with symbolic characters "
         "through both entry points with the same parser= / grammar= / decoder= arguments (7 combinations). "
         "The third-party multidict executes concretely because names are concrete. Outside: longer free text.",
@@ -264,7 +266,8 @@ CHECKS = {
         "outcome (returns / LexerError / ParseError / RuntimeError / RecursionError / KeyError / ValueError; dump: "
         "returns / ValueError / LexerError) and the verbosity 0-3 are solver-chosen: the verdict is (load succeeded, "
         "dump succeeded or None) and the report is produced. pvl_translate.formats[F].dump(module, stream) writes exactly pvl.dumps(module, "
-        "encoder=<F's encoder class>()) for modules with a symbolic string leaf; JSON on concrete modules. NOT "
+        "encoder=<F's encoder class>()) for modules with a symbolic string leaf; JSON on six concrete labels (repeated names, "
+        "nesting, an empty value): the document read with repeated keys kept is the label's list of (name, value) pairs. NOT "
         "reachable and not claimed: argparse, FileType opening, stdin/stdout, logging text, exit status - main(argv) "
         "is exercised only by the existing tests.",
    ref='5 (C20), 6', technique='symbolic execution (symx) of pvl_flavor/report/format writers vs an independent dialect table and layout; z3'),
